@@ -39,8 +39,16 @@ ALL = {
    text="Exploration. Affine-space laws, component-wise operators and ElementWise families of Point1-3, midpoint, centroid (1-8 points) and homogeneous coordinates, with == over Q, Fp and i64.",
    note=EX,
    technique="property-based testing: per-component reference + affine laws over exact fields", design="6/C12"),
+ "C13": dict(
+   text="Exploration. Modular clauses (normalize/normalize_signed/opposite/bisect/turn_div_k, arithmetic, Sum) are decided exactly on Deg<Q> and Rad<Q>; range membership is searched over raw f32/f64 bit patterns plus classes aimed at tiny negatives, whole turns, huge and subnormal values; unit conversion within 4 eps (and the absolute factor, so a consistently wrong constant pair is caught); trig and inverse trig against libm evaluated in f64 on the exact input value, with a conditioning-derived tolerance.",
+   note=EX+"libm is the trusted oracle for the transcendental clauses; poles avoided by 1e-3; bisect of numerically opposite angles accepts either bisector.",
+   technique="property-based testing: exact modular-arithmetic oracle (Q) + raw-bit-pattern range search + libm differential", design="6/C13"),
+ "C15": dict(
+   text="Exploration. between_vectors (Quaternion, Basis3, Basis2) and from_arc checked against the validity predicate of the statement (unit, maps a to b, rotation angle = angle(a,b), axis perpendicular, half turn for opposite vectors, fallback axis honoured, smaller angle) on f64 pairs in the classes generic / near-parallel / near-antiparallel (1e-12..1e-1 rad) / exactly equal / exactly opposite, and with == in Q on pairs b = 2(a.m)m - a for which every internal normalisation is rational.",
+   note=EX+"Unit inputs for between_vectors; the 1e-7 / 1e-4 allowances of the statement are applied as stated, with a conditioning term 32 eps/theta* between the allowance and 1e-9.",
+   technique="property-based testing: validity-predicate oracle with degenerate-class generators (f64) + exact rational geometry (Q)", design="6/C15"),
 }
-BUILT = ["C01","C02","C03","C04","C05","C06","C07","C12"]
+BUILT = ["C01","C02","C03","C04","C05","C06","C07","C12","C13","C15"]
 CLAIMED = {k: v for k, v in ALL.items() if k in BUILT}
 PENDING = {}
 
